@@ -1222,3 +1222,12 @@ func sentinelError(g *ssa.Global) bool {
 	}
 	return inits == 1 && other == 0
 }
+
+// EdgeFacts returns the facts generated on the CFG edge from→to.
+func (a *FuncAnalysis) EdgeFacts(from, to *ssa.BasicBlock) []*Fact {
+	var out []*Fact
+	for _, f := range a.edge[[2]int{from.Index, to.Index}] {
+		out = append(out, f)
+	}
+	return out
+}
